@@ -678,9 +678,18 @@ def gen_row(rng, line, year, stream) -> dict:
             miles = int(round(gc_km / STATUTE_MILES_TO_KM)) + int(rng.integers(-3, 4))
         r['distance'] = '%07d' % max(0, miles)
         # range
-        k = int(rng.integers(0, 10))
+        k = int(rng.integers(0, 13))
         a = date(year, 1, 1) + timedelta(days=int(rng.integers(0, 365)))
-        if k == 0:
+        if k == 10:   # starts in the year BEFORE the data year, open end (= end of the data year, not of the starting year)
+            r['efffrom'] = _ymd(date(year - 1, 12, 31) - timedelta(days=int(rng.integers(0, 40))))
+            r['effto'] = str(rng.choice(['00000000', '99999999']))
+        elif k == 11:  # open start (= start of the data year), ends in the year AFTER the data year
+            r['efffrom'] = str(rng.choice(['00000000', '99999999']))
+            r['effto'] = _ymd(date(year + 1, 1, 1) + timedelta(days=int(rng.integers(0, 40))))
+        elif k == 12:  # starts before the data year, explicit end inside it
+            r['efffrom'] = _ymd(date(year - 1, 12, 31) - timedelta(days=int(rng.integers(0, 20))))
+            r['effto'] = _ymd(date(year, 1, 1) + timedelta(days=int(rng.integers(0, 60))))
+        elif k == 0:
             r['efffrom'], r['effto'] = _ymd(a), _ymd(a)
         elif k == 1:
             r['efffrom'] = str(rng.choice(['00000000', '99999999']))
